@@ -139,7 +139,8 @@ func (d *Decode) Int32() int32 {
 }
 
 func (d *Decode) Data() string {
-	l := d.Int16()
+	// the length prefix is an unsigned 16 bit value
+	l := uint16(d.Int16())
 	return string(d.Copy(int(l)))
 }
 
@@ -162,6 +163,15 @@ func (d *Decode) PeekInt16() int16 {
 }
 
 func (d *Decode) Copy(size int) []byte {
+	if size < 0 {
+		d.lasterror = ErrOutOfBounds{
+			Min: 0,
+			Max: len(d.data),
+			Got: d.offset + size,
+		}
+		return nil
+	}
+
 	if err := d.HasBytes(size); err != nil {
 		d.lasterror = err
 		return nil
